@@ -52,8 +52,16 @@ func DevHandler(dev *simdev.Device, before func(q specref.Req)) server.ModbusHan
 
 // Feed pushes segments through a fresh ModbusTCPAssembler and returns what each feed returned.
 func Feed(h server.ModbusHandler, segs [][]byte) (outs [][]byte, closes []bool, panicTxt string) {
+	return FeedPaused(h, segs, -1, 0)
+}
+
+// FeedPaused is Feed with a pause of d before segment number pauseBefore is fed (a client that hesitates mid-stream).
+func FeedPaused(h server.ModbusHandler, segs [][]byte, pauseBefore int, d time.Duration) (outs [][]byte, closes []bool, panicTxt string) {
 	a := &server.ModbusTCPAssembler{Handler: h}
-	for _, s := range segs {
+	for i, s := range segs {
+		if i == pauseBefore && d > 0 {
+			time.Sleep(d)
+		}
 		var out []byte
 		var cl bool
 		in := make([]byte, len(s)) // exact capacity: the assembler must not depend on spare bytes
